@@ -14,6 +14,10 @@
 (*    viol - X contains violations X1 (IMM01) and X2 (TONL02 call) inside  *)
 (*           a function and X3 (TONL02 call in a package-level initialiser)*)
 (*    ign  - X starts with a file-level `@ignore ALL`                      *)
+(* a.go also declares a type AI with `@implements lib.I` without importing *)
+(* m/lib, while X does import it: imports are file-scoped, so A4 = IMPL01  *)
+(* on AI whatever X is (deviation PkgWideImports: the package's imports    *)
+(* bind the qualifier, A4w = IMPL03 instead).                              *)
 (* Classes: sibling (regular file of p), test (in-package _test.go),       *)
 (* xtest (external test package), tdpath (a package under a directory      *)
 (* whose path contains "testdata"), genpath (a package under zzgen/),      *)
@@ -51,7 +55,7 @@ Skip == \/ IsTest(sc.cls) /\ ~sc.scan
         \/ sc.cls \in {"genpath", "genfile", "genfirst", "gentest"} /\ "zzgen" \in sc.paths
 
 (* L1 *)
-Expected == {"A1"}
+Expected == {"A1", "A4"}
             \cup (IF sc.ann /\ ~Skip THEN {"A2", "A3"} ELSE {})
             \cup (IF sc.viol /\ ~Skip /\ ~sc.ign THEN {"X1"} ELSE {})
             \cup (IF sc.viol /\ ~Skip /\ ~sc.ign /\ ~IsTest(sc.cls) THEN {"X2", "X3"} ELSE {})
@@ -81,6 +85,7 @@ ReadIgnores ==
 Check ==
   /\ ph = "check"
   /\ diags' = {"A1"}
+              \cup (IF "PkgWideImports" \in Deviations /\ sc.cls \notin {"tdpath", "genpath", "xtest"} THEN {"A4w"} ELSE {"A4"})
               \cup (IF annSeen THEN {"A2"} ELSE {})
               \cup (IF fnAnnSeen THEN {"A3"} ELSE {})
               \cup (IF sc.viol /\ ~Filtered("CheckNoFilter") /\ ~ignSeen THEN {"X1"} ELSE {})
@@ -100,7 +105,7 @@ Exact == Done => diags = Expected
 \* (1) no diagnostic is located in a skipped file
 NoneInSkipped == (Done /\ Skip) => diags \cap {"X1", "X2", "X3"} = {}
 \* (2) what a skipped file contains does not influence the other files
-Inert == (Done /\ Skip) => diags = {"A1"}
+Inert == (Done /\ Skip) => diags = {"A1", "A4"}
 \* (3) test files never receive TONL diagnostics, but everything else when scan-tests is on
 TestFiles == (Done /\ IsTest(sc.cls)) => /\ "X2" \notin diags /\ "X3" \notin diags
                                           /\ (sc.scan /\ ~Skip /\ sc.viol /\ ~sc.ign => "X1" \in diags)
